@@ -75,7 +75,8 @@ pub enum Act {
     PayFunding { who: String, v: usize, attach: u128 },
     NextBlock { dt: u64 },
     SetOracle { v: usize, price: u128 },
-    EngineAdmin { sender: String, msg: eng::ExecuteMsg },
+    /// `attach`: native coins sent along (0 except for alias orders of a native deployment)
+    EngineAdmin { sender: String, msg: eng::ExecuteMsg, attach: u128 },
     VammAdmin { v: usize, sender: String, msg: vamm::ExecuteMsg },
     FundAdmin { sender: String, msg: fund::ExecuteMsg },
     Skip,
@@ -863,7 +864,7 @@ impl Interp {
                         partial_liquidation_ratio: p.map(u),
                         liquidation_fee: l.map(u),
                     },
-                }
+                 attach: 0 }
             }
             Op::VammCfg { v, field, knob } => {
                 let v = self.v_of(*v);
@@ -941,7 +942,7 @@ impl Interp {
             Op::SetPause { pause } => Act::EngineAdmin {
                 sender: self.w.pauser.clone(),
                 msg: eng::ExecuteMsg::SetPause { pause: *pause },
-            },
+             attach: 0 },
             Op::SetOpen { v, open } => Act::VammAdmin {
                 v: self.v_of(*v),
                 sender: self.w.owner.clone(),
@@ -968,7 +969,7 @@ impl Interp {
                     } else {
                         eng::ExecuteMsg::RemoveWhitelist { address: a }
                     },
-                }
+                 attach: 0 }
             }
             Op::RegisterAlien { add } => match &self.w.alien_vamm {
                 None => Act::Skip,
@@ -1156,9 +1157,24 @@ impl Interp {
                     9 => (Some(upper.clone()), eng::ExecuteMsg::DepositMargin { vamm: real, amount: u(1) }),
                     _ => (Some(self.w.liquidator.clone()), eng::ExecuteMsg::Liquidate { vamm: real, trader: upper.clone(), quote_asset_limit: u(0) }),
                 };
+                // in a native deployment the other-case account holds coins of its own and attaches what its order / deposit needs
+                let attach = if self.w.cfg.native {
+                    match &msg {
+                        eng::ExecuteMsg::OpenPosition { margin_amount, .. } if sender.is_some() => {
+                            let m = margin_amount.u128();
+                            let vc = &pre.v[v].cfg;
+                            m + crate::refmath::fee(m, vc.toll_ratio.u128(), d) + crate::refmath::fee(m, vc.spread_ratio.u128(), d)
+                        }
+                        eng::ExecuteMsg::DepositMargin { amount, .. } if sender.is_some() => amount.u128(),
+                        _ => 0,
+                    }
+                } else {
+                    0
+                };
                 Act::EngineAdmin {
                     sender: sender.unwrap_or_else(|| self.w.traders[crate::world::ALIAS_ATTACKER].clone()),
                     msg,
+                    attach,
                 }
             }
             Op::Drain { v, t, knob } => {
@@ -1345,7 +1361,7 @@ impl Interp {
                 Act::EngineAdmin {
                     sender: self.w.pauser.clone(),
                     msg: eng::ExecuteMsg::UpdatePauser { pauser: to },
-                }
+                 attach: 0 }
             }
             Op::Burst { v, who, n } => {
                 // a run of funding periods, each settled once: n x (a block one funding period later, PayFunding); the
@@ -1422,7 +1438,7 @@ impl Interp {
                 *attach,
             ),
             Act::PayFunding { v, attach, .. } => (eng::ExecuteMsg::PayFunding { vamm: vaddr(*v) }, *attach),
-            Act::EngineAdmin { msg, .. } => (msg.clone(), 0),
+            Act::EngineAdmin { msg, attach, .. } => (msg.clone(), *attach),
             _ => return None,
         })
     }
@@ -1495,7 +1511,7 @@ pub fn act_json(act: &Act) -> Value {
         Act::PayFunding { who, v, attach } => json!({"pay_funding": {"who": who, "v": v, "attach": attach.to_string()}}),
         Act::NextBlock { dt } => json!({"next_block": dt}),
         Act::SetOracle { v, price } => json!({"set_oracle": {"v": v, "price": price.to_string()}}),
-        Act::EngineAdmin { sender, msg } => json!({"engine_admin": {"sender": sender, "msg": format!("{:?}", msg)}}),
+        Act::EngineAdmin { sender, msg, attach } => json!({"engine_admin": {"sender": sender, "msg": format!("{:?}", msg), "attach": attach.to_string()}}),
         Act::VammAdmin { v, sender, msg } => json!({"vamm_admin": {"v": v, "sender": sender, "msg": format!("{:?}", msg)}}),
         Act::FundAdmin { sender, msg } => json!({"fund_admin": {"sender": sender, "msg": format!("{:?}", msg)}}),
         Act::Skip => json!("skip"),
